@@ -93,3 +93,22 @@ Theorem must_circ_set_iff : forall c x p,
   ~ In p (ref_products x) /\ ~ In p (may_set x) /\ ~ In p (c_pool c).
 Proof. exact must_circ_set_iff_lemma. Qed.
 Print Assumptions must_circ_set_iff.
+
+(* ---- graph stages (Model/AbsGraph.v; docs/absgraph.md): completeness side ---- *)
+From MoPep Require Import Model.AbsGraph Proofs.AbsGraphProofs Proofs.DigestProofs.
+
+(* stage (a), completeness of bubbles: when the check passes, every obliged haplotype (must_haps, the haplotypes
+   must_set ranges over) is spelled by a path of the transcript variant graph *)
+Theorem tvg_stage_complete : forall x off ws, tvg_missing x off ws = [] ->
+  forall h, In h (must_haps x) -> In (skipn off (apply_hap (in_tx x) h)) (strings ws).
+Proof. exact tvg_complete_lemma. Qed.
+Print Assumptions tvg_stage_complete.
+
+(* along a path whose node boundaries are exactly the cleavage sites, the peptides obtained by joining 1..k+1
+   consecutive nodes are exactly the digestion products (C10's declarative Digest_product) of the path string:
+   nothing the statement obliges can be lost by the calling step *)
+Theorem join_k_complete : forall wt water lim r exc nf ls p, ls <> [] ->
+  inner_bounds ls = sites r exc (concat ls) ->
+  (In p (joins wt water lim nf true ls) <-> Digest_product wt water lim r exc nf (concat ls) p).
+Proof. exact join_k_spec_lemma. Qed.
+Print Assumptions join_k_complete.
